@@ -226,10 +226,19 @@ def check_C20(ctx, rep):
         if v[0] == 'agg' and v[2] == 'Ok':
             okw, w = all_paths(pfo.at(b, k), lambda S: any(f[0] == 'called' and f[2][0] == ('param', 5) and is_call(f[2][1], 'MaybenotFramework::on_events') for f in S))
             rep.ob('C20.R3', oe, 'count-written-before-every-Ok', okw, 'num_actions_out.write(on_events(..)) precedes Ok' + ('' if okw else '; witness: ' + show_facts(w)))
-    for (b, f, a, t) in calls(oa):
-        if callee_str(f).endswith('MaybenotFramework::on_events'):
-            ok = contains(a[2], lambda x: is_call(x, 'from_raw_parts_mut')) and contains(a[1], lambda x: is_call(x, 'from_raw_parts'))
-            rep.ob('C20.R3', oe, 'on_events-gets-the-bounded-slices', ok, '')
+    oecalls = [(b, f, a, t) for (b, f, a, t) in calls(oa) if callee_str(f).endswith('MaybenotFramework::on_events')]
+    oloops = oa.cfg.loops()
+    rep.ob('C20.R3', oe, 'one-framework-call-per-batch', len(oecalls) == 1 and not any(oecalls[0][0] in body for body in oloops.values()),
+           'on_events call sites: %d (a batch must reach the framework as one trigger_events call: calls do not compose)' % len(oecalls))
+    for (b, f, a, t) in oecalls:
+        def whole(x, name):
+            # the argument is the slice built by from_raw_parts(_mut) itself, possibly reborrowed, not a sub-slice or chunk of it
+            y = x
+            while isinstance(y, tuple) and y and y[0] in ('ref', 'refv', 'deref', 'load', 'pick'):
+                y = y[1]
+            return is_call(y, name)
+        ok = whole(a[2], 'from_raw_parts_mut') and whole(a[1], 'from_raw_parts')
+        rep.ob('C20.R3', oe, 'on_events-gets-the-bounded-slices', ok, 'on_events(_, %s, %s)' % (shape(a[1])[:40], shape(a[2])[:40]))
     me = prog.fn(FFI, 'MaybenotFramework', 'on_events')
     ma = an.get(me)
     rep.analysed(me)
@@ -243,7 +252,22 @@ def check_C20(ctx, rep):
     # events are converted one to one, in order
     pushes = [(b, a) for (b, f, a, t) in calls(ma) if callee_str(f).endswith('Vec::<T, A>::push')]
     okp = len(pushes) == 1 and is_call(pushes[0][1][1], 'convert_event')
-    rep.ob('C20.R3', me, 'events-converted-one-to-one', okp, '')
+    if okp:
+        # every element of the events slice is converted and pushed: exactly one push per iteration of the loop over `events`
+        mloops = ma.cfg.loops()
+        hs = [h for h, body in mloops.items() if pushes[0][0] in body]
+        okp = len(hs) == 1
+        if okp:
+            from .rules_limits import min_max_on_paths
+            lo, hi = min_max_on_paths(ma, hs[0], {pushes[0][0]}, mloops[hs[0]], stop_at_header=True)
+            okp = (lo, hi) == (1, 1)
+            ev = pushes[0][1][1][2][0]
+            okp = okp and contains(ev, lambda x: is_call(x, 'Iterator>::next') or is_call(x, 'Iterator::next'))
+    rep.ob('C20.R3', me, 'events-converted-one-to-one', okp, 'every event of the batch is converted and buffered, in order')
+    for (b, f, a, t) in calls(ma):
+        if callee_str(f).endswith('Framework::<M, R, T>::trigger_events'):
+            okb = contains(a[1], lambda x: isinstance(x, tuple) and x and x[0] == 'fld' and x[2].endswith('MaybenotFramework')) and not contains(a[1], lambda x: isinstance(x, tuple) and x and x[0] == 'agg' and 'Range' in x[1])
+            rep.ob('C20.R3', me, 'framework-gets-the-whole-buffer', okb, 'trigger_events(%s, ..)' % shape(a[1])[:50])
     okclr = any(callee_str(f).endswith('Vec::<T, A>::clear') for (b, f, a, t) in calls(ma))
     rep.ob('C20.R3', me, 'event-buffer-cleared-first', okclr, '')
     # unsafe inventory
@@ -329,7 +353,7 @@ def check_C20(ctx, rep):
             ok = a[1] == ('param', 2) and a[2] == ('param', 3)
             rep.ob('C20.R5', st, 'fractions-reach-Framework::new-unchanged', ok, 'Framework::new(_, %s, %s, ..)' % (show(a[1]), show(a[2])))
             okm = contains(a[0], lambda x: is_call(x, 'Iterator::collect')) and contains(a[0], lambda x: is_call(x, 'Iterator::map')) and \
-                contains(a[0], lambda x: is_call(x, 'str>::lines') or is_call(x, '::lines')) and contains(a[0], lambda x: isinstance(x, tuple) and x and x[0] == 'fn' and x[1] and 'from_str' in x[1])
+                contains(a[0], lambda x: (is_call(x, 'str>::lines') or is_call(x, '::lines')) and x[2][0] == ('param', 1)) and contains(a[0], lambda x: isinstance(x, tuple) and x and x[0] == 'fn' and x[1] and 'from_str' in x[1])
             rep.ob('C20.R5', st, 'machines-are-lines-map-from_str', okm, 'machines = %s' % shape(a[0]))
     # error mapping closures
     errs = {}
